@@ -18,7 +18,7 @@ import threading
 
 import numpy as np
 
-from mc import core, env, harness, sched, synth, vfs
+from mc import core, env, harness, libstate, sched, synth, vfs
 
 ID = "C19"
 LEVEL = "model_checking"
@@ -37,7 +37,16 @@ SCENARIOS = {
     "three-threads-copy": [("t", "HH", [0, 2]), ("p", "HH", [3, 5]), ("p", "HV", [0, 5])],
 }
 
+# a product with many images, every image read once before the concurrent loads start (state such as a bounded pool of
+# open handles only builds up with use): every ordered pair of images
+MANY = [(pol, f"F{k}") for k in range(1, 7) for pol in ("HH", "HV")]
+for _a in range(len(MANY)):
+    for _b in range(len(MANY)):
+        if _a != _b:
+            SCENARIOS[f"warm12:{_a}:{_b}"] = {"product": "many", "warm": True, "threads": [("t", harness.group_name(*MANY[_a]), [0, 3]), ("t", harness.group_name(*MANY[_b]), [2, 5])]}
+
 _ctx = {}
+_many = {}
 
 
 def install_shims():
@@ -76,7 +85,25 @@ def setup():
     # one schedule to the next); in-process pickled copies share the per-variable locks with the original,
     # which stays alive here, exactly like "tree + pickled copy" in user code
     _ctx.update({"prod": prod, "orig": tree, "blob": pickle.dumps(tree), "ref": ref, "prefix": str(env.REPO / "ceos_alos2") + os.sep})
+    # ... and from the same process-level state of the library (module globals, class attributes, caches)
+    _ctx["libstate"] = libstate.Snapshot()
     return _ctx
+
+
+def setup_many():
+    if _many:
+        return _many
+    c = setup()  # shims first
+    images = [synth.image_spec(pol, scan, 5, 2, "C*8") for pol, scan in MANY]
+    spec = synth.product_spec("1.1", images=images)
+    files, _ = synth.build(spec)
+    prod = harness.Product(files, "mcfs")
+    tree = prod.open(use_cache=False, records_per_chunk=2)
+    names = [harness.group_name(pol, scan) for pol, scan in MANY]
+    ref = {n: np.asarray(tree[f"imagery/{n}/data"].values).copy() for n in names}
+    _many.update({"prod": prod, "orig": tree, "blob": pickle.dumps(tree), "ref": ref, "prefix": c["prefix"], "names": names})
+    _many["libstate"] = libstate.Snapshot()
+    return _many
 
 
 def rows_of(sel):
@@ -88,13 +115,21 @@ def label(ev):
 
 
 def scenario(name, lines):
-    c = setup()
-    threads = SCENARIOS[name]
+    sc = SCENARIOS[name]
+    if isinstance(sc, dict):
+        c, threads, warm = setup_many(), sc["threads"], sc.get("warm", False)
+    else:
+        c, threads, warm = setup(), sc, False
     tracer = sched.line_tracer(c["prefix"]) if lines else None
 
     def make(s):
         out = {}
+        c["libstate"].restore()
         trees = {"t": pickle.loads(c["blob"]), "p": pickle.loads(c["blob"])}
+        if warm:  # sequential history before the threads start (no scheduler involved: Sched.current is None)
+            vfs.HOOK[0] = None
+            for n in c["names"]:
+                trees["t"][f"imagery/{n}/data"].isel(rows=0).values
         vfs.HOOK[0] = lambda ev: sched.Sched.current and sched.Sched.current.yield_point(label(ev))
         for i, (which, img, sel) in enumerate(threads):
             def body(i=i, which=which, img=img, sel=sel):
@@ -190,6 +225,8 @@ def free_running(rounds=200):
     bad = 0
     for r in range(rounds):
         for name, threads in SCENARIOS.items():
+            if isinstance(threads, dict):
+                continue
             out = {}
             barrier = threading.Barrier(len(threads))
 
@@ -211,6 +248,9 @@ def free_running(rounds=200):
 def plan(tier):
     jobs = []
     for name, threads in SCENARIOS.items():
+        if isinstance(threads, dict):
+            jobs.append({"scenario": name, "bound": 1 if tier == "quick" else 2, "lines": False})
+            continue
         bounds = (0, 1, 2, 3) if len(threads) == 2 else (0, 1, 2)
         for b in bounds:
             jobs.append({"scenario": name, "bound": b, "lines": False})
@@ -224,7 +264,7 @@ def plan(tier):
 def run(res, tier, seed):
     res.rule = (
         "scenarios {same variable overlapping/disjoint groups, single-line (integer) selections, different variables, original+pickled copy (same/other variable),"
-        " three threads, three threads with copies} x preemption bound 0..3 (2 threads) / 0..2 (3 threads) at filesystem+lock yield"
+        " three threads, three threads with copies; every ordered pair of the 12 images of a ScanSAR product after each image was read once} x preemption bound 0..3 (2 threads) / 0..2 (3 threads) at filesystem+lock yield"
         " points; line-granular yield points inside ceos_alos2 at bound 1 (quick) / 2 (thorough). states = distinct event orders"
         " observed, transitions = scheduling decisions executed, traces = complete schedules executed on the real threads; the"
         " first schedules of every job and every failing schedule are replayed and must reproduce identical events."
